@@ -368,6 +368,16 @@ func panicSignature(msg string) string {
 		sb.WriteByte(ch)
 	}
 	out := sb.String()
+	if i := strings.Index(out, "interface {} is "); i >= 0 { // the dynamic type varies with the input
+		if j := strings.Index(out[i:], ", not "); j >= 0 {
+			out = out[:i] + "interface {} is T" + out[i+j:]
+		}
+	}
+	if i := strings.Index(out, "uncomparable type "); i >= 0 {
+		if j := strings.Index(out[i:], " @ "); j >= 0 {
+			out = out[:i] + "uncomparable type T" + out[i+j:]
+		}
+	}
 	if i := strings.Index(out, " @ "); i >= 0 { // keep the frame exact
 		if j := strings.Index(msg, " @ "); j >= 0 {
 			out = out[:i] + msg[j:]
